@@ -2,6 +2,7 @@ package p12
 
 import (
 	"fmt"
+	"sort"
 
 	"github.com/btcsuite/btcd/mempool"
 	"verifharness/core"
@@ -21,6 +22,9 @@ func newPoolGen(r *core.Rand, world int) *poolGen {
 	s := &scenario{world: world, src: "stub", minW: 0, maxW: 4000000 - 4000, prioSize: 0, minFree: 1000}
 	s.now = worldT0 + worldSpacing*int64(worldBlocks) + 1200
 	pg := &poolGen{s: s, w: getWorld(world), r: r, used: map[int]bool{}, fpks: map[int64]bool{}}
+	s.addr = r.Bool()
+	s.upd = r.Bool()
+	s.pb = r.Chance(1, 6)
 	s.deriveFacts()
 	return pg
 }
@@ -28,6 +32,7 @@ func newPoolGen(r *core.Rand, world int) *poolGen {
 // setReorg fixes the tip before any transaction is added.
 func (pg *poolGen) setReorg(f, k int) {
 	pg.s.roF, pg.s.roK = f, k
+	pg.s.pb = true
 	pg.s.deriveFacts()
 	tip := pg.s.chainTimes()
 	pg.s.now = tip[len(tip)-1] + 1200
@@ -82,7 +87,7 @@ func (pg *poolGen) inValue(r inRef) int64 {
 }
 
 // add appends a transaction spending ins, paying fee, splitting the rest over
-// outs kinds.  It returns the pool index.
+// the output kinds.  It returns the pool index.
 func (pg *poolGen) add(ins []inRef, kinds []byte, fee int64) int {
 	total := int64(0)
 	for _, r := range ins {
@@ -93,17 +98,22 @@ func (pg *poolGen) add(ins []inRef, kinds []byte, fee int64) int {
 	}
 	rest := total - fee
 	t := txSpec{ins: ins, lockKind: '0', allMax: true, fee: fee}
-	for i, k := range kinds {
-		v := rest / int64(len(kinds)-i)
-		if k == 'M' || k == 'R' {
-			v = 0
+	spendKinds := 0
+	for _, k := range kinds {
+		if k != 'M' && k != 'R' {
+			spendKinds++
+		}
+	}
+	for _, k := range kinds {
+		v := int64(0)
+		if k != 'M' && k != 'R' {
+			v = rest / int64(spendKinds)
+			spendKinds--
 		}
 		rest -= v
 		t.outs = append(t.outs, outSpec{k, v})
 	}
-	if rest > 0 { // everything went to zero-value outputs: the rest is fee
-		t.fee += rest
-	}
+	t.fee += rest // nothing spendable to carry the rest: it is fee
 	pg.s.txs = append(pg.s.txs, t)
 	return len(pg.s.txs) - 1
 }
@@ -144,7 +154,8 @@ func (pg *poolGen) finish(distinctKeys bool) *scenario {
 }
 
 // keysDistinct reports whether (priority, fee rate) pairs are pairwise
-// distinct, i.e. the pop order is a function of the queue content only.
+// distinct in both components' lexicographic orders, i.e. the pop order is a
+// function of the queue content only.
 func keysDistinct(s *scenario) bool {
 	seen := map[string]bool{}
 	for _, t := range s.txs {
@@ -157,33 +168,547 @@ func keysDistinct(s *scenario) bool {
 	return true
 }
 
-// ---------------------------------------------------------------- generators
+// permute reorders the source list (the order MiningDescs returns) and renames
+// the pool references accordingly.
+func permute(s *scenario, r *core.Rand) {
+	n := len(s.txs)
+	perm := make([]int, n) // perm[old] = new
+	for i := range perm {
+		perm[i] = i
+	}
+	for i := n - 1; i > 0; i-- {
+		j := r.Intn(i + 1)
+		perm[i], perm[j] = perm[j], perm[i]
+	}
+	out := make([]txSpec, n)
+	for old, t := range s.txs {
+		ins := make([]inRef, len(t.ins))
+		copy(ins, t.ins)
+		for k := range ins {
+			if ins[k].kind == 'p' {
+				ins[k].k = perm[ins[k].k]
+			}
+		}
+		t.ins = ins
+		out[perm[old]] = t
+	}
+	s.txs = out
+}
+
+var outKinds = []byte{'T', 'K', 'W', 'S', 'H', 'T', 'T'}
+
+func (pg *poolGen) randKinds(n int) []byte {
+	kinds := make([]byte, n)
+	for j := range kinds {
+		kinds[j] = outKinds[pg.r.Intn(len(outKinds))]
+	}
+	return kinds
+}
+
+// randomPool adds n transactions: roots spend world outputs, others spend
+// still-unspent outputs of earlier pool transactions (chains and trees), with
+// a sprinkle of the configured anomalies.
+type poolOpts struct {
+	n          int
+	childProb  int // percent
+	anomalies  bool
+	maxFee     int64
+	zeroFeePct int
+	anyKind    bool
+}
+
+type freeOut struct{ j, i int }
+
+func (pg *poolGen) randomPool(o poolOpts) {
+	r := pg.r
+	var free []freeOut
+	for c := 0; c < o.n; c++ {
+		var ins []inRef
+		nin := 1
+		if r.Chance(1, 4) {
+			nin = 2 + r.Intn(2)
+		}
+		for k := 0; k < nin; k++ {
+			if len(free) > 0 && r.Chance(o.childProb, 100) {
+				x := r.Intn(len(free))
+				fo := free[x]
+				free = append(free[:x], free[x+1:]...)
+				ins = append(ins, inRef{kind: 'p', k: fo.j, idx: fo.i})
+				continue
+			}
+			k := pg.pick(func(u utxo) bool {
+				return pg.spendable(u) && (o.anyKind || u.kind == 'T' || u.kind == 'K' || u.kind == 'S')
+			})
+			if k >= 0 {
+				ins = append(ins, pg.ref(k))
+			}
+		}
+		if len(ins) == 0 {
+			continue
+		}
+		if o.anomalies && r.Chance(1, 6) {
+			switch r.Intn(8) {
+			case 0: // unknown input (first, middle or last: the early-exit registration quirk)
+				x := inRef{kind: 'x', k: r.Intn(1000)}
+				pos := r.Intn(len(ins) + 1)
+				ins = append(ins[:pos], append([]inRef{x}, ins[pos:]...)...)
+			case 1: // bad script
+				ins[r.Intn(len(ins))].bad = true
+			case 2: // double spend of something an earlier pool transaction already spends
+				if len(pg.s.txs) > 0 {
+					v := pg.s.txs[r.Intn(len(pg.s.txs))]
+					ins = append(ins, v.ins[r.Intn(len(v.ins))])
+					ins[len(ins)-1].bad = false
+				}
+			case 3: // immature coinbase
+				k := pg.pick(func(u utxo) bool { return u.cb && pg.s.available(u) && pg.s.nextH-u.height < worldMaturity })
+				if k >= 0 {
+					ins = append(ins, pg.ref(k))
+				}
+			case 4: // output index that does not exist / unspendable output of a pool parent
+				if len(pg.s.txs) > 0 {
+					j := r.Intn(len(pg.s.txs))
+					ins = append(ins, inRef{kind: 'p', k: j, idx: len(pg.s.txs[j].outs) + r.Intn(2)})
+				}
+			case 5: // output that is gone from the chain
+				k := pg.pick(func(u utxo) bool { return !pg.s.available(u) })
+				if k >= 0 {
+					ins = append(ins, pg.ref(k))
+				}
+			case 6: // coinbase-shaped pool transaction
+				ins = []inRef{{kind: 'c'}}
+			case 7: // non-final
+				// handled below through the lock fields
+			}
+		}
+		fee := r.Range(0, o.maxFee)
+		if r.Chance(o.zeroFeePct, 100) {
+			fee = 0
+		}
+		nout := 1 + r.Intn(3)
+		if pg.s.src == "pool" {
+			nout++ // the pool refuses transactions below 65 bytes
+		}
+		kinds := pg.randKinds(nout)
+		if r.Chance(1, 10) {
+			kinds = append(kinds, 'R')
+		}
+		if r.Chance(1, 10) {
+			for m := r.Intn(4); m >= 0; m-- {
+				kinds = append(kinds, 'M')
+			}
+		}
+		j := pg.add(ins, kinds, fee)
+		if o.anomalies && r.Chance(1, 12) {
+			pg.randomLock(j)
+		}
+		for i, out := range pg.s.txs[j].outs {
+			if out.kind != 'M' && out.kind != 'R' && (pg.s.seg || (out.kind != 'W' && out.kind != 'S')) {
+				free = append(free, freeOut{j, i})
+			}
+		}
+	}
+}
+
+// randomLock gives transaction j a lock time at one of the interesting edges.
+func (pg *poolGen) randomLock(j int) {
+	r := pg.r
+	t := &pg.s.txs[j]
+	if r.Bool() {
+		t.lockKind = 'H'
+		t.lock = int64(pg.s.nextH) + r.Range(-2, 1)
+		if t.lock < 1 {
+			t.lock = 1
+		}
+	} else {
+		t.lockKind = 'T'
+		base := []int64{pg.s.mtp, pg.s.now, pg.s.mtp + 1, (pg.s.mtp + pg.s.now) / 2}[r.Intn(4)]
+		t.lock = base + r.Range(-1, 1)
+	}
+	t.allMax = r.Chance(1, 4)
+}
 
 func (P) Generate(g *core.Gen) {
 	genIndependent(g)
+	genPools(g)
+	genLocks(g)
+	genWeightLimits(g)
+	genSigopLimits(g)
+	genPriority(g)
+	genReorg(g)
+	genRealPool(g)
+	genDishonest(g)
+	genTies(g)
+	genWitnessReserve(g)
 }
 
-var outKinds = []byte{'T', 'K', 'W', 'S', 'H'}
-
 func genIndependent(g *core.Gen) {
-	for c := 0; c < g.N(60, 400); c++ {
+	for c := 0; c < g.N(30, 300); c++ {
+		pg := newPoolGen(g.R, c%2)
+		pg.randomPool(poolOpts{n: 1 + g.R.Intn(8), childProb: 0, maxFee: 50000, zeroFeePct: 10, anyKind: true})
+		s := pg.finish(true)
+		g.Case("independent", len(s.txs) > 0, s.line())
+	}
+}
+
+func genPools(g *core.Gen) {
+	for c := 0; c < g.N(150, 1500); c++ {
+		world := 0
+		if g.R.Chance(1, 4) {
+			world = 1
+		}
+		pg := newPoolGen(g.R, world)
+		pg.randomPool(poolOpts{n: 2 + g.R.Intn(14), childProb: 30 + g.R.Intn(50), anomalies: g.R.Chance(2, 3),
+			maxFee: 60000, zeroFeePct: 15, anyKind: true})
+		pg.s.minFree = g.R.Pick(0, 1, 1000, 20000, 100000)
+		pg.s.minW = uint32(g.R.Pick(0, 0, 1000, 3000, 100000))
+		s := pg.finish(true)
+		permute(s, g.R)
+		if g.R.Chance(1, 3) {
+			s.prioSize = uint32(g.R.Pick(1, 1500, 3000, 50000))
+		}
+		g.Case("pools", len(s.txs) > 1, s.line())
+	}
+}
+
+// genLocks: lock times at every edge of both clocks, on both worlds.  The
+// MTP <= locktime < now band with a non-final sequence is the F-C12-a trigger.
+func genLocks(g *core.Gen) {
+	for world := 0; world < 2; world++ {
+		for _, slow := range []bool{false, true} {
+			for _, am := range []bool{false, true} {
+				pg := newPoolGen(g.R, world)
+				if slow { // wall clock behind the median time: the header takes MTP+1
+					pg.s.now = pg.s.mtp - 100
+				}
+				s0 := pg.s
+				locks := [][2]int64{}
+				for d := int64(-2); d <= 2; d++ {
+					locks = append(locks, [2]int64{'H', int64(s0.nextH) + d}, [2]int64{'T', s0.mtp + d}, [2]int64{'T', s0.now + d},
+						[2]int64{'T', headerTimeOf(s0) + d})
+				}
+				locks = append(locks, [2]int64{'T', 500000000}, [2]int64{'H', 499999999}, [2]int64{'T', (s0.mtp + s0.now) / 2})
+				for _, l := range locks {
+					k := pg.pick(func(u utxo) bool { return pg.spendable(u) && u.kind == 'T' })
+					j := pg.add([]inRef{pg.ref(k)}, []byte{'T'}, 5000+g.R.Range(0, 20000))
+					pg.s.txs[j].lockKind, pg.s.txs[j].lock, pg.s.txs[j].allMax = byte(l[0]), l[1], am
+				}
+				s := pg.finish(true)
+				g.Case("locks", true, s.line())
+				// and one transaction at a time (so that a failing self-check is attributable)
+				if g.Thorough() || !am {
+					for i := range s.txs {
+						one := *s
+						one.txs = []txSpec{s.txs[i]}
+						g.Case("locks-single", true, one.line())
+					}
+				}
+			}
+		}
+	}
+}
+
+func headerTimeOf(s *scenario) int64 {
+	if s.now < s.mtp+1 {
+		return s.mtp + 1
+	}
+	return s.now
+}
+
+// predictedOrder is the order by descending fee rate (ties: priority) of the
+// transactions without anomalies; used only to place limits near the running
+// totals.
+func predictedOrder(s *scenario) []int {
+	idx := make([]int, len(s.txs))
+	for i := range idx {
+		idx[i] = i
+	}
+	sort.SliceStable(idx, func(a, b int) bool {
+		ta, tb := s.txs[idx[a]], s.txs[idx[b]]
+		if ta.fpk != tb.fpk {
+			return ta.fpk > tb.fpk
+		}
+		return ta.prio > tb.prio
+	})
+	return idx
+}
+
+// genWeightLimits: BlockMaxWeight / BlockMinWeight at, one below and one above
+// the running weight after each prefix of the fee order, with and without the
+// witness-commitment reservation in play.
+func genWeightLimits(g *core.Gen) {
+	for c := 0; c < g.N(60, 500); c++ {
 		pg := newPoolGen(g.R, 0)
-		pg.s.addr = g.R.Bool()
-		pg.s.upd = g.R.Bool()
-		n := 1 + g.R.Intn(8)
+		wit := c%3 != 0
+		pg.randomPool(poolOpts{n: 3 + g.R.Intn(8), childProb: g.R.Intn(40), maxFee: 80000, zeroFeePct: 10, anyKind: wit})
+		s := pg.finish(true)
+		if len(s.txs) < 2 {
+			continue
+		}
+		run := int64(356 + s.cbw)
+		var marks []int64
+		seenWit := false
+		for _, i := range predictedOrder(s) {
+			if s.txs[i].hw && !seenWit {
+				seenWit = true
+				marks = append(marks, run+224, run+224+s.txs[i].wt)
+				run += 224
+			}
+			run += s.txs[i].wt
+			marks = append(marks, run)
+		}
+		m := marks[g.R.Intn(len(marks))]
+		s.maxW = uint32(m + g.R.Range(-2, 2))
+		if g.R.Chance(1, 6) {
+			s.maxW = uint32(g.R.Pick(0, 1, 356, 4000000, 4294967295))
+		}
+		if g.R.Chance(1, 3) {
+			s.minW = uint32(marks[g.R.Intn(len(marks))] + g.R.Range(-1, 1))
+			s.minFree = g.R.Pick(1000, 30000, 1000000)
+		}
+		g.Case("weight-limit", true, s.line())
+	}
+}
+
+// genSigopLimits: transactions heavy in legacy sigops (bare CHECKMULTISIG
+// outputs, 80 cost each) and P2SH sigops so that the 80000 limit is reached.
+func genSigopLimits(g *core.Gen) {
+	for c := 0; c < g.N(12, 80); c++ {
+		pg := newPoolGen(g.R, 0)
+		left := int64(80000)
+		if pg.s.addr {
+			left -= 4
+		}
+		n := 3 + g.R.Intn(4)
 		for i := 0; i < n; i++ {
-			k := pg.pick(func(u utxo) bool { return pg.spendable(u) && (u.kind == 'T' || u.kind == 'K') })
+			k := pg.pick(func(u utxo) bool { return pg.spendable(u) && (u.kind == 'T' || u.kind == 'H') })
 			if k < 0 {
 				break
 			}
-			nout := 1 + g.R.Intn(3)
-			kinds := make([]byte, nout)
-			for j := range kinds {
-				kinds[j] = outKinds[g.R.Intn(len(outKinds))]
+			share := left / int64(n-i)
+			if i == n-1 || g.R.Chance(1, 3) {
+				share = left
 			}
-			pg.add([]inRef{pg.ref(k)}, kinds, g.R.Range(0, 50000))
+			m := share/80 + g.R.Range(-1, 1)
+			if pg.w.catalog[k].kind == 'H' {
+				m--
+			}
+			if m < 0 {
+				m = 0
+			}
+			kinds := []byte{'T'}
+			for x := int64(0); x < m; x++ {
+				kinds = append(kinds, 'M')
+			}
+			pg.add([]inRef{pg.ref(k)}, kinds, g.R.Range(1000, 90000))
+			left -= m * 80
+			if pg.w.catalog[k].kind == 'H' {
+				left -= 80
+			}
+			if left < 0 {
+				left = 0
+			}
 		}
 		s := pg.finish(true)
-		g.Case("independent", len(s.txs) > 0, s.line())
+		g.Case("sigop-limit", true, s.line())
+	}
+}
+
+// genPriority: a high-priority area of varying size; old, large inputs give
+// priorities above MinHighPriority, fresh small ones below.
+func genPriority(g *core.Gen) {
+	for c := 0; c < g.N(60, 500); c++ {
+		pg := newPoolGen(g.R, 0)
+		n := 3 + g.R.Intn(8)
+		for i := 0; i < n; i++ {
+			big := g.R.Bool()
+			k := pg.pick(func(u utxo) bool {
+				return pg.spendable(u) && (u.kind == 'T' || u.kind == 'K') && (u.val >= 100000000) == big
+			})
+			if k < 0 {
+				continue
+			}
+			fee := g.R.Range(0, 40000)
+			if g.R.Chance(1, 4) {
+				fee = 0
+			}
+			pg.add([]inRef{pg.ref(k)}, pg.randKinds(1+g.R.Intn(2)), fee)
+		}
+		if g.R.Chance(1, 2) {
+			pg.randomPool(poolOpts{n: 1 + g.R.Intn(4), childProb: 70, maxFee: 30000, zeroFeePct: 30, anyKind: true})
+		}
+		s := pg.finish(true)
+		if len(s.txs) == 0 {
+			continue
+		}
+		run := int64(356 + s.cbw)
+		marks := []int64{run}
+		for _, t := range s.txs {
+			run += t.wt
+			marks = append(marks, run)
+		}
+		s.prioSize = uint32(marks[g.R.Intn(len(marks))] + g.R.Range(-1, 1))
+		if g.R.Chance(1, 4) {
+			s.prioSize = uint32(g.R.Pick(1, 1000, 100000, 4000000))
+		}
+		s.minFree = g.R.Pick(0, 1000, 50000)
+		s.minW = uint32(g.R.Pick(0, 0, 2000, 1000000))
+		permute(s, g.R)
+		g.Case("priority", true, s.line())
+	}
+}
+
+// genReorg: the tip right after a reorganisation; part of the pool spends
+// outputs that only existed on the abandoned branch.
+func genReorg(g *core.Gen) {
+	for c := 0; c < g.N(40, 300); c++ {
+		pg := newPoolGen(g.R, c%2)
+		f := worldBlocks - 1 - g.R.Intn(12)
+		k := worldBlocks - f + 1 + g.R.Intn(3)
+		if g.R.Chance(1, 8) {
+			k = worldBlocks - f // equal work: the tip does not move
+		}
+		pg.setReorg(f, k)
+		n := 2 + g.R.Intn(8)
+		for i := 0; i < n; i++ {
+			gone := g.R.Chance(1, 3)
+			k := pg.pick(func(u utxo) bool {
+				if gone {
+					return !pg.s.available(u)
+				}
+				return pg.spendable(u)
+			})
+			if k < 0 {
+				continue
+			}
+			pg.add([]inRef{pg.ref(k)}, pg.randKinds(1+g.R.Intn(2)), g.R.Range(0, 50000))
+		}
+		pg.randomPool(poolOpts{n: g.R.Intn(5), childProb: 80, anomalies: true, maxFee: 30000, zeroFeePct: 10, anyKind: true})
+		s := pg.finish(true)
+		permute(s, g.R)
+		g.Case("reorg", len(s.txs) > 0, s.line())
+	}
+}
+
+// genRealPool: a real mempool.TxPool as the source (map order, so only pools
+// whose keys are pairwise distinct).
+func genRealPool(g *core.Gen) {
+	for c := 0; c < g.N(60, 500); c++ {
+		pg := newPoolGen(g.R, c%2)
+		pg.s.src = "pool"
+		if g.R.Chance(1, 3) {
+			f := worldBlocks - 1 - g.R.Intn(6)
+			pg.setReorg(f, worldBlocks-f+1)
+		}
+		pg.randomPool(poolOpts{n: 2 + g.R.Intn(12), childProb: 20 + g.R.Intn(60), maxFee: 60000, zeroFeePct: 10, anyKind: true})
+		if g.R.Chance(1, 3) && len(pg.s.txs) > 0 {
+			pg.randomLockPool(g.R.Intn(len(pg.s.txs)))
+		}
+		s := pg.finish(false)
+		if !keysDistinct(s) {
+			continue
+		}
+		s.minFree = g.R.Pick(0, 1000, 20000)
+		if g.R.Chance(1, 3) {
+			s.prioSize = uint32(g.R.Pick(1000, 3000, 50000))
+		}
+		g.Case("real-pool", len(s.txs) > 0, s.line())
+	}
+}
+
+// randomLockPool: a lock the AcceptNonStd pool admits; between MTP and now it
+// is the F-C10-b / F-C12-a situation.
+func (pg *poolGen) randomLockPool(j int) {
+	t := &pg.s.txs[j]
+	t.lockKind = 'T'
+	t.lock = pg.s.mtp + pg.r.Range(-1, pg.s.now-pg.s.mtp+1)
+	t.allMax = pg.r.Chance(1, 4)
+}
+
+// genDishonest: a source whose descriptors lie about the fee.  Too high makes
+// the coinbase overpay (the self-check must refuse), too low under-reports.
+func genDishonest(g *core.Gen) {
+	for c := 0; c < g.N(12, 80); c++ {
+		pg := newPoolGen(g.R, 0)
+		pg.randomPool(poolOpts{n: 2 + g.R.Intn(5), childProb: 30, maxFee: 40000, anyKind: true})
+		s := pg.finish(true)
+		if len(s.txs) == 0 {
+			continue
+		}
+		i := g.R.Intn(len(s.txs))
+		s.txs[i].fee += g.R.Pick(-1, 1, 1000, -1000)
+		g.Case("dishonest-fee", true, s.line())
+	}
+}
+
+// genTies: equal keys.  Independent parents with distinct keys, each with one
+// child; children have priority 0 (unmined inputs) and fee rates from a set of
+// two values, so the queue holds genuinely equal items.  The source is the
+// deterministic stub and nothing is released in pairs, so the pop order is
+// fixed by container/heap's sift rules alone.
+func genTies(g *core.Gen) {
+	for c := 0; c < g.N(40, 300); c++ {
+		pg := newPoolGen(g.R, 0)
+		n := 2 + g.R.Intn(8)
+		fp := g.R.Range(0, 3000)
+		var parents []int
+		for i := 0; i < n; i++ {
+			k := pg.pick(func(u utxo) bool { return pg.spendable(u) && u.kind == 'T' })
+			if k < 0 {
+				break
+			}
+			j := pg.add([]inRef{pg.ref(k)}, []byte{'T'}, g.R.Range(1, 30)*1000)
+			pg.s.txs[j].fpk = pg.uniqueFpk(100000 + g.R.Range(0, 100000))
+			parents = append(parents, j)
+		}
+		for _, pj := range parents {
+			j := pg.add([]inRef{{kind: 'p', k: pj, idx: 0}}, []byte{'T'}, g.R.Range(0, 3)*1000)
+			pg.s.txs[j].fpk = fp + g.R.Range(0, 1)
+			if pg.s.txs[j].fpk == 0 {
+				pg.s.txs[j].fpk = 1
+			}
+		}
+		s := pg.finish(false)
+		if g.R.Chance(1, 3) {
+			s.prioSize = uint32(g.R.Pick(1, 1500, 3000))
+		}
+		s.minFree = g.R.Pick(0, 1000, 2000)
+		g.Case("ties", true, s.line())
+	}
+}
+
+// genWitnessReserve: non-witness transactions fill the block up to the policy
+// maximum, then a witness transaction with a lower fee rate is considered and
+// does not fit.  The commitment reservation must not stay behind (F-C12-b: it
+// did, the finished block exceeded BlockMaxWeight by up to 191 weight units
+// and carried a commitment for no witness data).
+func genWitnessReserve(g *core.Gen) {
+	for c := 0; c < g.N(20, 150); c++ {
+		pg := newPoolGen(g.R, 0)
+		n := 1 + g.R.Intn(3)
+		for i := 0; i < n; i++ {
+			k := pg.pick(func(u utxo) bool { return pg.spendable(u) && (u.kind == 'T' || u.kind == 'K') })
+			j := pg.add([]inRef{pg.ref(k)}, []byte{'T', 'K'}[:1+g.R.Intn(2)], 60000+g.R.Range(0, 30000))
+			pg.s.txs[j].fpk = 500000 + int64(i)
+		}
+		m := 1 + g.R.Intn(2)
+		for i := 0; i < m; i++ {
+			k := pg.pick(func(u utxo) bool { return pg.spendable(u) && (u.kind == 'S' || u.kind == 'W') })
+			j := pg.add([]inRef{pg.ref(k)}, []byte{'T'}, 2000+g.R.Range(0, 3000))
+			pg.s.txs[j].fpk = 20000 + int64(i)
+		}
+		if g.R.Bool() { // a small non-witness transaction that would still fit without the reservation
+			k := pg.pick(func(u utxo) bool { return pg.spendable(u) && u.kind == 'T' })
+			j := pg.add([]inRef{pg.ref(k)}, []byte{'T'}, 1500)
+			pg.s.txs[j].fpk = 10000
+		}
+		s := pg.finish(false)
+		run := int64(356 + s.cbw)
+		for i := 0; i < n; i++ {
+			run += s.txs[i].wt
+		}
+		s.maxW = uint32(run + g.R.Pick(1, 2, 100, 224, 225, 224+s.txs[n].wt, 225+s.txs[n].wt, 244+225))
+		permute(s, g.R)
+		g.Case("witness-reserve", true, s.line())
 	}
 }
